@@ -1088,7 +1088,8 @@ class H5DataV3(DataSet):
         def transform(flags, keep):
             """Use flagmask to blank out the flags we don't want."""
             # Then convert uint8 to bool -> if any flag bits set, flag is set
-            return np.bool_(np.bitwise_and(flags_select, flags))
+            # (the one-element mask must not lend its dimension to a scalar selection such as flags[0, 0, 0])
+            return np.bool_(np.bitwise_and(flags_select[0], flags))
         extract = LazyTransform('extract_flags', transform, dtype=bool)
         return self._vislike_indexer(self._flags, extract)
 
